@@ -76,6 +76,9 @@ impl TlsClientHelloReader {
                 "First byte is not TLS Handshake (0x16), got 0x{:02x}. Might be continuation data.",
                 content_type
             );
+            // A buffer that does not start with a handshake record can never complete: keeping it
+            // would let it grow with every later segment of the connection.
+            self.buffer.clear();
             return Ok(None);
         }
 
